@@ -36,3 +36,50 @@ package dcmi
 //@ ensures [C06.capinforeq-bytes] result == nil ==> bufBytes(b)[0] == uint8(g.Parameter)
 //@ ensures [C06.capinforeq-payload] result == nil ==> forall(qk, 0, len(old(bufBytes(b))), bufBytes(b)[1+qk] == old(bufBytes(b)[qk]))
 
+
+// ---- command accessors (DCMI v1.5 table 6-1 ff.): group extension NetFn 2Ch with body code DCh, responder LUN 0
+
+//@ func (*getDCMICapabilitiesInfoCmd).Operation
+//@ props C06 C11
+//@ assigns nothing
+//@ ensures [C06.op-getdcmicapabilitiesinfocmd] !isnil(result) && result.Function == 0x2c && result.Body == 0xdc && result.Command == 0x01 && result.Enterprise == 0
+
+//@ func (*getDCMICapabilitiesInfoCmd).RemoteLUN
+//@ props C06
+//@ assigns nothing
+//@ ensures [C06.lun-getdcmicapabilitiesinfocmd] result == ipmi.LUNBMC
+
+//@ func (*getDCMICapabilitiesInfoCmd).Request
+//@ props C06
+//@ assigns nothing
+//@ ensures [C06.req-getdcmicapabilitiesinfocmd] !isnil(result)
+
+//@ func (*GetPowerReadingCmd).Operation
+//@ props C06 C11
+//@ assigns nothing
+//@ ensures [C06.op-getpowerreadingcmd] !isnil(result) && result.Function == 0x2c && result.Body == 0xdc && result.Command == 0x02 && result.Enterprise == 0
+
+//@ func (*GetPowerReadingCmd).RemoteLUN
+//@ props C06
+//@ assigns nothing
+//@ ensures [C06.lun-getpowerreadingcmd] result == ipmi.LUNBMC
+
+//@ func (*GetPowerReadingCmd).Request
+//@ props C06
+//@ assigns nothing
+//@ ensures [C06.req-getpowerreadingcmd] !isnil(result)
+
+//@ func (*GetDCMISensorInfoCmd).Operation
+//@ props C06 C11
+//@ assigns nothing
+//@ ensures [C06.op-getdcmisensorinfocmd] !isnil(result) && result.Function == 0x2c && result.Body == 0xdc && result.Command == 0x07 && result.Enterprise == 0
+
+//@ func (*GetDCMISensorInfoCmd).RemoteLUN
+//@ props C06
+//@ assigns nothing
+//@ ensures [C06.lun-getdcmisensorinfocmd] result == ipmi.LUNBMC
+
+//@ func (*GetDCMISensorInfoCmd).Request
+//@ props C06
+//@ assigns nothing
+//@ ensures [C06.req-getdcmisensorinfocmd] !isnil(result)
